@@ -45,7 +45,7 @@ class Tree:
         return core.child_env(self.pythonpath(*more), extra=extra, hashseed=hashseed)
 
     # ---------------------------------------------------------------- translate
-    def translate(self, jobs, nworkers=None, plugins=(), plugin_args=None, timeout=900, env_extra=None,
+    def translate(self, jobs, nworkers=None, plugins=(), plugin_args=None, timeout=2400, env_extra=None,
                   hashseed='0', chunk=None):
         """jobs: list of dicts (see cyworker). Returns (results in job order, plugin data list)."""
         if not jobs:
@@ -89,7 +89,7 @@ class Tree:
         return results, plugdata
 
     # ---------------------------------------------------------------- C build
-    def cbuild(self, c_file, so=None, cc=None, cflags=(), ldflags=(), cplus=False, opt='-O0', timeout=600,
+    def cbuild(self, c_file, so=None, cc=None, cflags=(), ldflags=(), cplus=False, opt='-O0', timeout=2400,
                numpy=False):
         if cc is None:
             cc = 'g++' if cplus else 'gcc'
@@ -146,6 +146,6 @@ class Tree:
             info[n]['so'] = b['so']
             info[n]['ok'] = b['ok']
             if not b['ok']:
-                info[n]['errors'] = b['err']
+                info[n]['errors'] = b['err'] or ('C compiler timed out' if b.get('timed_out') else '')
         self.last_plugins = plug
         return d, info
